@@ -4,6 +4,7 @@ package c18
 
 import (
 	"fmt"
+	"runtime"
 
 	"github.com/bitcoin-sv/block-headers-service/config"
 	"github.com/bitcoin-sv/block-headers-service/verifharness/ev"
@@ -24,6 +25,11 @@ func body(r *ev.Run) {
 		"ban timing: the system under test reads the wall clock; 'still banned' is asserted with a 1 h ban only, 'ban elapsed' with a 1 ms ban followed by a 50 ms pause — never near the threshold",
 		"connection manager: bounded progress — 'stopped dialling' means no Dial/GetNewAddress/OnConnection/Close activity for 200 retry intervals (1 ms each); a miss is only reported after a confirming re-run with a 5x longer window; Remove()d connections are not expected to be replaced; permanent (backoff) requests are not exercised",
 	)
+	if r.Workers > 1 {
+		// one worker process per CPU: keep each worker's thread count low so that the
+		// bounded-progress monitor is not disturbed by host oversubscription
+		runtime.GOMAXPROCS(4)
+	}
 	nBook := r.Pick(300, 10000)
 	nCM := r.Pick(200, 5000)
 	for i := 0; i < nBook; i++ {
